@@ -586,7 +586,7 @@ fn life_plans(thorough: bool) -> Vec<Plan> {
         }
         g
     }));
-    let depth = if thorough { 10 } else { 7 };
+    let depth = if thorough { 8 } else { 7 };
     vec![Plan {
         sc,
         depth,
@@ -814,7 +814,7 @@ fn ibc_plans(thorough: bool) -> Vec<Plan> {
             }
             g
         }));
-        let depth = if thorough { 6 } else { 4 };
+        let depth = if thorough { 5 } else { 4 };
         out.push(Plan {
             sc,
             depth,
